@@ -2253,8 +2253,14 @@ ure_exec(ure_dfa_t dfa, int flags, ucs2_t *text, unsigned long textlen,
 	if (flags & URE_NOTBOL)
 	  break;
 	if (lp == text) {
-	  sp = lp;
-	  matched = 1;
+	  /*
+	   * Nothing is consumed here, so only at the start of an
+	   * attempt ("^*" never came back from this place).
+	   */
+	  if (ms == (unsigned long) ~0) {
+	    sp = lp;
+	    matched = 1;
+	  }
 	} else if (_ure_isbrk(c)) {
 	  if (c == '\r' && sp < ep && *sp == '\n')
 	    sp++;
@@ -2322,7 +2328,7 @@ ure_exec(ure_dfa_t dfa, int flags, ucs2_t *text, unsigned long textlen,
       }
     }
 
-    if (matched && stp->accepting) {
+    if (matched && stp->accepting && me > ms) {
       ams = ms;
       ame = me;
     }
@@ -2350,12 +2356,25 @@ ure_exec(ure_dfa_t dfa, int flags, ucs2_t *text, unsigned long textlen,
 	  stp = dfa->states;
 	  ms = me = ~0;
 	}
-      } else
+      } else if (ms != (unsigned long) ~0 && me > ms)
 	/*
 	 * The last state was accepting, so terminate the matching
 	 * loop to avoid more work.
 	 */
 	found = 1;
+      else {
+	/*
+	 * The pattern matches the empty string ("a*", "^", "x*$") and
+	 * nothing, or nothing but an anchor, matched here.  That is
+	 * not an occurrence: go on with the next character, or "a*"
+	 * finds no "aa" behind the first other character, and the
+	 * caller gets the same empty match again and again.
+	 */
+	if (ms != (unsigned long) ~0)
+	  sp = text + ms + 1;
+	stp = dfa->states;
+	ms = me = ~0;
+      }
     } else if (sp == ep) {
       if (!stp->accepting) {
 	/*
@@ -2391,10 +2410,12 @@ ure_exec(ure_dfa_t dfa, int flags, ucs2_t *text, unsigned long textlen,
       } else {
 	/*
 	 * Make sure any conditions that match all the way to the end
-	 * of the string match.
+	 * of the string match.  (The end of the match is known: behind
+	 * the last character, but in front of a separator matched by
+	 * an end-of-line anchor.)
 	 */
-	found = 1;
-	me = sp - text;
+	if (me > ms)
+	  found = 1;
       }
     }
   }
@@ -2408,7 +2429,7 @@ ure_exec(ure_dfa_t dfa, int flags, ucs2_t *text, unsigned long textlen,
   *match_start = ms;
   *match_end = me;
 
-  return (ms != (unsigned long) ~0) ? 1 : 0;
+  return (ms != (unsigned long) ~0 && me > ms) ? 1 : 0;
 }
 
 #endif /* HAVE_GLIBC21 || HAVE_LIBUNICODE */
